@@ -25,7 +25,7 @@ CLAIMS = {
          "6 C12", "Coq proof (ghost lifecycle refinement over histories) + closure exploration on the implementation"),
  "C13": ("proof: exclusive / none-clears / cancel-clears / protected / idempotent (static) and sound / complete over histories for every N >= 4; checked from every reachable state of the closure on the real SlotManager (recover, recover twice, recover+complete, cancel and its crash prefixes).",
          "6 C13", "Coq proof (invariants over histories) + closure exploration on the implementation"),
- "C04": ("proof + fault enumeration: tear safety of every status word (all intermediate patterns), the CRC gate before the Complete mark, read-only validation, header-first slot erase and total allocation are theorems; power loss at every modifying flash operation of rich histories (start, fragments, final mark, recovery remediation, cancel, status marks) incl. torn programs is executed on the real crate and on the byte-level model; oracle: no panic after reboot, every Complete firmware slot validates and holds the image sent for its sequence number, boot status never designates an invalid slot.",
+ "C04": ("proof + fault enumeration: tear safety of every status word (all intermediate patterns), the CRC gate before the Complete mark, read-only validation, header-first slot erase and total allocation are theorems, and for every crash point / torn outcome of the final check-and-mark the firmware data region is untouched and CRC-valid whenever anything was programmed (c04_final_mark_crash_safe, executable model); power loss at every modifying flash operation of rich histories (start, fragments, final mark, recovery remediation, cancel, status marks) incl. torn programs is executed on the real crate and on the byte-level model; oracle: no panic after reboot, every Complete firmware slot validates and holds the image sent for its sequence number, boot status never designates an invalid slot.",
          "6 C04", "Coq proof of the ingredients + exhaustive crash/torn enumeration per history, differential against the model"),
  "C06": ("proof + fault enumeration: recovery reads back the durable bookkeeping (recover_roundtrip) and data writes are crash-compatible (compatibility lemmas) are theorems; power loss at every operation boundary of start / every fragment / final mark with both continuations is executed on the real crate and the model; the two windows where the on-flash state is not a sufficient checkpoint are recorded known findings classified from the reference operation log.",
          "6 C06", "Coq proof (checkpoint lemmas) + exhaustive crash-point enumeration per scenario; two known findings"),
